@@ -96,25 +96,24 @@ def unit_switch_rule(repo: Repo, rep: Report, rid: str) -> None:
         rep.fail(rid, f"{wfi.key}:flush-guard:typechange", f"expected one flush guard in the field loop, found {len(guards)}", wfi.loc())
 
 
-_FOLDS: dict = {}
 
 
 def _read_fold(repo: Repo):
     from .. import bbfold
 
-    k = ("r", id(repo))
-    if k not in _FOLDS:
-        _FOLDS[k] = bbfold.fold_reads(repo)
-    return _FOLDS[k]
+    cache = repo.__dict__.setdefault("_bb_folds", {})
+    if "r" not in cache:
+        cache["r"] = bbfold.fold_reads(repo)
+    return cache["r"]
 
 
 def _write_fold(repo: Repo):
     from .. import bbfold
 
-    k = ("w", id(repo))
-    if k not in _FOLDS:
-        _FOLDS[k] = bbfold.fold_writes(repo)
-    return _FOLDS[k]
+    cache = repo.__dict__.setdefault("_bb_folds", {})
+    if "w" not in cache:
+        cache["w"] = bbfold.fold_writes(repo)
+    return cache["w"]
 
 
 def straddle_rule(repo: Repo, rep: Report, rid: str) -> None:
